@@ -499,6 +499,7 @@ type exclSink struct {
 	inUse    bool
 	overlaps int
 	calls    int
+	log      []string // operations in arrival order (payload of writes, "S" for syncs)
 }
 
 func (s *exclSink) enter() {
@@ -512,8 +513,12 @@ func (s *exclSink) enter() {
 	s.calls++
 }
 
-func (s *exclSink) Write(p []byte) (int, error) { s.enter(); return len(p), nil }
-func (s *exclSink) Sync() error                 { s.enter(); return nil }
+func (s *exclSink) Write(p []byte) (int, error) {
+	s.log = append(s.log, "W"+string(p))
+	s.enter()
+	return len(p), nil
+}
+func (s *exclSink) Sync() error { s.log = append(s.log, "S"); s.enter(); return nil }
 
 func lockHandler(item string, replay []int, isReplay bool, journal func([]int)) mc.ItemResult {
 	// item: lock|<wrapper>|ops per thread e.g. W,S;S;W
@@ -525,6 +530,7 @@ func lockHandler(item string, replay []int, isReplay bool, journal func([]int)) 
 	}
 	mk := func() mc.Exec {
 		s := &exclSink{}
+		var s2 *exclSink
 		var ws zapcore.WriteSyncer
 		switch wrapper {
 		case "Lock":
@@ -535,6 +541,16 @@ func lockHandler(item string, replay []int, isReplay bool, journal func([]int)) 
 			ws = zap.CombineWriteSyncers(s)
 		case "Combine2":
 			ws = zap.CombineWriteSyncers(s, s)
+		// two member sinks behind one lock: whole operations must not interleave across the members
+		case "LockMulti":
+			s2 = &exclSink{}
+			ws = zapcore.Lock(zapcore.NewMultiWriteSyncer(s, s2))
+		case "LockMultiLocked":
+			s2 = &exclSink{}
+			ws = zapcore.Lock(zapcore.NewMultiWriteSyncer(zapcore.Lock(s), zapcore.Lock(s2)))
+		case "CombineLocked":
+			s2 = &exclSink{}
+			ws = zap.CombineWriteSyncers(zapcore.Lock(s), zapcore.Lock(s2))
 		}
 		total := 0
 		return mc.Exec{Body: func() {
@@ -543,11 +559,17 @@ func lockHandler(item string, replay []int, isReplay bool, journal func([]int)) 
 				p := p
 				total += len(p)
 				wg.Add(1)
+				ti := len(progs) - 1
+				for k := range progs {
+					if &progs[k][0] == &p[0] {
+						ti = k
+					}
+				}
 				vsched.Go(func() {
 					defer wg.Done()
-					for _, op := range p {
+					for oi, op := range p {
 						if op == "W" {
-							ws.Write([]byte("x"))
+							ws.Write([]byte(fmt.Sprintf("%d.%d", ti, oi)))
 						} else {
 							ws.Sync()
 						}
@@ -565,6 +587,14 @@ func lockHandler(item string, replay []int, isReplay bool, journal func([]int)) 
 			}
 			if s.calls != total*mult {
 				return "", fmt.Errorf("%s: sink saw %d calls, want %d", wrapper, s.calls, total*mult)
+			}
+			if s2 != nil {
+				if s2.overlaps > 0 {
+					return "", fmt.Errorf("%s: a Write/Sync entered the second member sink while another call was still inside it (%d overlaps)", wrapper, s2.overlaps)
+				}
+				if strings.Join(s.log, " ") != strings.Join(s2.log, " ") {
+					return "", fmt.Errorf("%s: the member sinks saw the operations in different orders - [%s] vs [%s]: another operation got in between the two halves of one", wrapper, strings.Join(s.log, " "), strings.Join(s2.log, " "))
+				}
 			}
 			return fmt.Sprintf("calls=%d", s.calls), nil
 		}}
@@ -594,7 +624,7 @@ func main() {
 
 	var items []string
 	progs := []string{"W", "S", "W,S", "S,W", "W,W"}
-	for _, wr := range []string{"Lock", "LockLock", "Combine1", "Combine2"} {
+	for _, wr := range []string{"Lock", "LockLock", "Combine1", "Combine2", "LockMulti", "LockMultiLocked", "CombineLocked"} {
 		for i := 0; i < len(progs); i++ {
 			for j := i; j < len(progs); j++ {
 				items = append(items, fmt.Sprintf("lock|%s|%s;%s", wr, progs[i], progs[j]))
